@@ -323,6 +323,110 @@ fn trial_handoff(cx: &mut Ctx, nthreads: usize, seed: u64) {
     }
 }
 
+/// Constructor stress: T threads build small objects from their *own* keys over and over
+/// (Threefish through `new`, ciphers through `new`, hashers through `Default`) and use each once.
+/// Whatever a constructor remembers between calls (a cached key schedule, subkey, IV) and shares
+/// between threads shows as a result that belongs to another thread's parameters. Expected values
+/// come from the reference models before the threads start.
+fn trial_ctor_stress(cx: &mut Ctx, nthreads: usize, iters: usize, seed: u64) {
+    use cipher::NewBlockCipher;
+    struct P {
+        tfk: Vec<(usize, Vec<u8>, Vec<u8>, Vec<u8>)>,            // (nb, key, block, expected)
+        ck: Vec<(&'static str, [u8; 32], Vec<u8>, Vec<u8>)>,     // (type, key, nonce, expected keystream of block 0)
+        hk: Vec<(HashId, Vec<u8>, Vec<u8>)>,                     // (hash, message, expected)
+    }
+    let mk = |t: usize| -> P {
+        let mut r = Rng::new(mix(&[seed, 0xc7c7, t as u64]));
+        let mut p = P { tfk: Vec::new(), ck: Vec::new(), hk: Vec::new() };
+        for nb in [32usize, 64, 128] {
+            for _ in 0..if cfg!(miri) { 1 } else { 2 } {
+                let (key, blk) = (r.bytes(nb), r.bytes(nb));
+                let exp = rtf::encrypt(&key, 0, 0, &blk);
+                p.tfk.push((nb, key, blk, exp));
+            }
+        }
+        for ty in ["XChaCha20", "ChaCha8", "Ietf", "XChaCha12"] {
+            let (layout, dr, nlen) = api::cipher_params(ty);
+            let (key, nonce) = super::key_nonce(r.u64(), nlen);
+            let mut e = vec![0u8; 64];
+            RefStream::new(layout, dr, &key, &nonce).xor(0, &mut e);
+            p.ck.push((ty, key, nonce, e));
+        }
+        // under Miri only the models that are cheap to interpret supply expected values
+        let menu = if cfg!(miri) { vec![HashId { fam: Fam::Blake, bits: 256, out: 32 }] } else { api::hashes15(32) };
+        for _ in 0..if cfg!(miri) { 1 } else { 4 } {
+            let id = *r.pick(&menu);
+            let n = r.below(40) as usize;
+            let m = r.bytes(n);
+            let e = id.reference(&m);
+            p.hk.push((id, m, e));
+        }
+        p
+    };
+    let params: Vec<Arc<P>> = (0..nthreads).map(|t| Arc::new(mk(t))).collect();
+    let errors: Arc<Mutex<Vec<String>>> = Arc::new(Mutex::new(Vec::new()));
+    let barrier = Arc::new(Barrier::new(nthreads));
+    let mut hs = Vec::new();
+    for t in 0..nthreads {
+        let (p, errors, barrier) = (params[t].clone(), errors.clone(), barrier.clone());
+        hs.push(std::thread::spawn(move || {
+            barrier.wait();
+            let r = guarded(|| -> Result<(), String> {
+                for i in 0..iters {
+                    match i % 3 {
+                        0 => {
+                            // the same parameters for a run of calls (a cache hit needs a repeat), then the next set
+                            let (nb, key, blk, exp) = &p.tfk[(i / 3000) % p.tfk.len()];
+                            let mut b = blk.clone();
+                            match nb {
+                                32 => threefish_cipher::Threefish256::new(GenericArray::from_slice(key)).encrypt_block(GenericArray::from_mut_slice(&mut b)),
+                                64 => threefish_cipher::Threefish512::new(GenericArray::from_slice(key)).encrypt_block(GenericArray::from_mut_slice(&mut b)),
+                                _ => threefish_cipher::Threefish1024::new(GenericArray::from_slice(key)).encrypt_block(GenericArray::from_mut_slice(&mut b)),
+                            }
+                            if &b != exp {
+                                return Err(format!("Threefish{}::new(key of this thread) encrypted under something else (iteration {})", nb * 8, i));
+                            }
+                        }
+                        1 => {
+                            let (ty, key, nonce, exp) = &p.ck[(i / 3000) % p.ck.len()];
+                            let mut d = vec![0u8; 64];
+                            api::new_cipher(ty, key, nonce).try_apply(&mut d).map_err(|_| "apply failed".to_string())?;
+                            if &d != exp {
+                                return Err(format!("{}::new(key, nonce of this thread) produced another stream (iteration {})", ty, i));
+                            }
+                        }
+                        _ => {
+                            let (id, m, exp) = &p.hk[(i / 3000) % p.hk.len()];
+                            let mut h = id.new();
+                            h.update(m);
+                            if &h.finalize_box() != exp {
+                                return Err(format!("a new {} gave a wrong digest (iteration {})", id.name(), i));
+                            }
+                        }
+                    }
+                }
+                Ok(())
+            });
+            match r {
+                Ok(Ok(())) => {}
+                Ok(Err(m)) => errors.lock().unwrap().push(format!("constructor-stress|fresh-object-per-call|{}", m)),
+                Err(p) => errors.lock().unwrap().push(format!("constructor-stress-panic|fresh-object-per-call|{}", p)),
+            }
+        }));
+    }
+    for h in hs {
+        let _ = h.join();
+    }
+    cx.log.eval((nthreads * iters) as u64);
+    cx.log.event("objects_constructed_and_used_concurrently", (nthreads * iters) as u64);
+    cx.log.class(&format!("constructor-stress/threads={}", nthreads));
+    for e in errors.lock().unwrap().iter() {
+        let mut p = e.splitn(3, '|');
+        let (kind, entry, msg) = (p.next().unwrap(), p.next().unwrap(), p.next().unwrap_or(""));
+        cx.log.violation(&format!("C18|{}|{}|{}", api::profile(), kind, entry), msg);
+    }
+}
+
 fn trial_threads(cx: &mut Ctx, nthreads: usize, nmixed: usize, seed: u64) {
     let mut r = Rng::new(seed);
     let bulk = r.below(3) == 0;
@@ -550,6 +654,12 @@ pub fn run(cx: &mut Ctx) {
             cx.log.nontrivial();
             trial_handoff(cx, nt, hseed);
         }
+        // and objects built and used once, over and over, from each thread's own keys
+        let (nt, iters) = if cfg!(miri) { (2, 6) } else { (8, 400 * cx.budget as usize) };
+        let cseed = mix(&[seed, 0xc7c7]);
+        cx.log.announce(&format!("k=ctor seed={} threads={} iters={}", cseed, nt, iters));
+        cx.log.nontrivial();
+        trial_ctor_stress(cx, nt, iters, cseed);
     }
     if part != "threads" {
         let n = if cfg!(miri) { 1 } else { 6 };
@@ -564,6 +674,9 @@ pub fn replay(cx: &mut Ctx, desc: &str) {
     if d.str("k") == "threads" {
         cx.log.announce(desc);
         trial_threads(cx, d.u64("threads") as usize, d.u64("mixed") as usize, d.u64("seed"));
+    } else if d.str("k") == "ctor" {
+        cx.log.announce(desc);
+        trial_ctor_stress(cx, d.u64("threads") as usize, d.u64("iters") as usize, d.u64("seed"));
     } else if d.str("k") == "handoff" {
         cx.log.announce(desc);
         trial_handoff(cx, d.u64("threads") as usize, d.u64("seed"));
